@@ -449,3 +449,34 @@ func ExploreConc(rep *kit.Report, env kit.Env, c Conc, bound int, top *int) Stat
 	rep.OutcomeN("sched:"+c.Name+" [serial orders run for the oracle]", int64(nser))
 	return st
 }
+
+// FreeRunAll runs the free-running companion pass over all scenarios in two rounds:
+// first two iterations of EVERY scenario (the race detector works on happens-before,
+// so one overlap-free execution of two conflicting bodies is usually enough for a
+// report - no scenario must be starved by the time budget on a loaded machine),
+// then the remaining iterations. withSerial: judge outcomes by the serial orders.
+func FreeRunAll(rep *kit.Report, env kit.Env, concs []Conc, withSerial bool, iters int) (n int64) {
+	allowed := make([]map[string]string, len(concs))
+	first := 2
+	if iters < first {
+		first = iters
+	}
+	for round, k := range []int{first, iters - first} {
+		for i, c := range concs {
+			if k <= 0 {
+				continue
+			}
+			if env.Expired() {
+				if round == 0 {
+					rep.Cap(fmt.Sprintf("free-running companion pass: the time budget ended before every scenario had run once (%d of %d scenarios)", i, len(concs)))
+				}
+				return n
+			}
+			if withSerial && allowed[i] == nil {
+				allowed[i], _ = c.Serial()
+			}
+			n += c.FreeRunConc(rep, env, allowed[i], k)
+		}
+	}
+	return n
+}
